@@ -8,6 +8,7 @@ import PygModel.Tree
 import PygProofs.Lemmas.TreeLemmas
 import PygProofs.Lemmas.TreeMerge
 import PygProofs.Lemmas.TreeHeapLemmas
+import PygProofs.Lemmas.TreeHeapAbs
 
 namespace Pyg.Props.C15
 open Pyg Pyg.Tree Pyg.DA Pyg.TreeHeap
@@ -161,6 +162,56 @@ theorem update_operands_unchanged (f : Nat) (m : Mem) (t u : Nat) (ig : List Val
   · cases h
   · next its _ =>
     exact (itemsToTreeH_safe f m its t ig m' r h).2.1.readH (Nat.le_refl _) g x v hx
+
+/-- the heap model refines the pure model: if `t` and `u` represent the pure trees `tv` (distinct
+keys) and `uv` in the heap (`Own false`: sharing between branches allowed), the fuel covers their
+depths, and the pure `tree_update` returns `w`, then the heap `tree_update` returns a new node that
+represents `w` in tree shape — and reading that node back (`readH`) gives exactly `w`. -/
+theorem update_abstraction (f : Nat) (m : Mem) (t u : Nat) (ig : List Val) (tv uv w : Val)
+    (fpt fpu : List Nat) (ht : Own false m.heap tv (.ptr t) fpt) (hu : Own false m.heap uv (.ptr u) fpu)
+    (hwt : wf tv = true) (hdt : depth tv ≤ f) (hdu : depth uv ≤ f)
+    (hup : update tv uv ig = .ok w) :
+    ∃ m' fp, treeUpdateH f m t u ig = .ok (m', m.heap.length) ∧
+      Own true m'.heap w (.ptr m.heap.length) fp ∧
+      ∀ g, depth w ≤ g → readH m'.heap g (.ptr m.heap.length) = some w := by
+  obtain ⟨a, rfl⟩ := Own_ptr_dict ht
+  simp only [update, itemsToTree] at hup
+  split at hup
+  · cases hup
+  · next hnd =>
+    split at hup
+    · cases hup
+    · next hne =>
+      simp only [pure, Except.pure, Except.map, Except.ok.injEq] at hup
+      subst hup
+      obtain ⟨m1, fp1, hcopy, hown1, _⟩ := copyH_abs (.dict a) f m t fpt ht hdt hwt
+      obtain ⟨fp2, hown2⟩ := setItemsH_abs ig m.heap.length (items uv) (items_snd_leaf uv) m1 a fp1 hown1
+      refine ⟨setItemsH m1 m.heap.length (items uv) ig, fp2, ?_, hown2, fun g hg => readH_of_Own _ _ fp2 g hown2 hg⟩
+      simp only [treeUpdateH, itemsH_of_Own uv (.ptr u) fpu f hu hdu, itemsToTreeH, hnd, hne, hcopy]
+      rfl
+
+/-- with `update_is_merge`: on the heap, `tree_update` builds the recursive merge in new nodes -/
+theorem update_heap_is_merge (f : Nat) (m : Mem) (t u : Nat) (ig : List Val) (a b : List (String × Val))
+    (fpt fpu : List Nat) (ht : Own false m.heap (.dict a) (.ptr t) fpt)
+    (hu : Own false m.heap (.dict b) (.ptr u) fpu)
+    (hwt : wf (.dict a) = true) (hwu : wf (.dict b) = true) (hnu : noEmpty (.dict b) = true)
+    (hdt : depth (.dict a) ≤ f) (hdu : depth (.dict b) ≤ f) :
+    ∃ m', treeUpdateH f m t u ig = .ok (m', m.heap.length) ∧
+      ∀ g, depth (merge ig (.dict a) (.dict b)) ≤ g →
+        readH m'.heap g (.ptr m.heap.length) = some (merge ig (.dict a) (.dict b)) := by
+  obtain ⟨m', _, h1, _, h3⟩ := update_abstraction f m t u ig _ _ _ fpt fpu ht hu hwt hdt hdu
+    (update_is_merge a b ig hwu hnu)
+  exact ⟨m', h1, h3⟩
+
+/-- non-vacuity of `update_abstraction` / `update_heap_is_merge`: an operand whose two branches are the
+SAME dict object (node 0 is shared) is a representation (`Own false`) -/
+example : Own false [[("b", .val (.cell (.int 1)))], [("x", .ptr 0), ("y", .ptr 0)]]
+    (.dict [("x", .dict [("b", .cell (.int 1))]), ("y", .dict [("b", .cell (.int 1))])]) (.ptr 1) [1, 0, 0] := by
+  simp only [Own, OwnKVs]
+  refine ⟨1, _, [0, 0], rfl, rfl, rfl, by simp, .ptr 0, _, [0], [0], rfl, rfl, ?_, ?_, by simp⟩
+  · exact ⟨0, _, [], rfl, rfl, rfl, by simp, _, _, [], [], rfl, rfl, ⟨rfl, rfl⟩, ⟨rfl, rfl⟩, by simp⟩
+  · refine ⟨.ptr 0, _, [0], [], rfl, rfl, ?_, ⟨rfl, rfl⟩, by simp⟩
+    exact ⟨0, _, [], rfl, rfl, rfl, by simp, _, _, [], [], rfl, rfl, ⟨rfl, rfl⟩, ⟨rfl, rfl⟩, by simp⟩
 
 /-- F7: the code before the fix (`copy(tree)`, one level) violates the frame property:
 `t = {'a': {'b': 1}}; tree_update(t, {'a': {'c': 2}})` writes `c` into the node of `t['a']` -/
